@@ -110,7 +110,19 @@ func Check(cfg Config, prop string) int {
 		fmt.Println("govc: contract files do not parse; nothing is decided")
 		return 2
 	}
-	units := generate(cfg, p, func(k string, c *gcl.Contract) bool { return hasProp(c.Props, prop) },
+	// the functions tagged with the property and every verified function they reach (closure.go); a reached function counts
+	// for this property with all its unlabelled obligations, its bounded stand-ins are not run for it
+	closure := propertyClosure(p, prop)
+	reached := map[string]bool{}
+	for k, tagged := range closure {
+		if !tagged {
+			reached[k] = true
+			c := *p.Contracts[k]
+			c.Props = append(append([]string{}, c.Props...), prop)
+			p.Contracts[k] = &c
+		}
+	}
+	units := generate(cfg, p, func(k string, c *gcl.Contract) bool { _, ok := closure[k]; return ok },
 		func(l *gcl.Lemma) bool { return hasProp(l.Props, prop) })
 	tgen := time.Since(t0)
 	outDir := filepath.Join(cfg.out(), "check-"+prop)
@@ -212,7 +224,7 @@ func Check(cfg Config, prop string) int {
 	var boundedEv []any
 	seenDrv := map[string]bool{}
 	for _, u := range units {
-		if u.Contract == nil || u.Unbound {
+		if u.Contract == nil || u.Unbound || reached[u.Key] {
 			continue
 		}
 		for _, b := range u.Contract.Bounded {
@@ -368,6 +380,7 @@ func Check(cfg Config, prop string) int {
 		"checker_cmd":               fmt.Sprintf("bin/govc check --property %s --tier %s", prop, cfg.Tier),
 		"trusted_base":              trusted,
 		"functions_under_contract":  fnames,
+		"functions_reached_through_calls": reachedNames(reached),
 		"by_solver":                 bySolver,
 		"solver_time_s":             round3(solverTime.Seconds()),
 		"generation_s":              round3(tgen.Seconds()),
@@ -378,7 +391,7 @@ func Check(cfg Config, prop string) int {
 		"bounded":                   boundedOrEmpty(boundedEv),
 		"samples":                   samples,
 		"solvers_available":         solve.Available(),
-		"explanation":               "obligations = verification conditions generated from /repo's current SSA for every contract and lemma tagged with this property (post, pre@call, loop invariants, frames, order, safety, lemma), excluding those matched by a listed known finding; discharged = answered unsat by at least one solver with no solver answering sat",
+		"explanation":               "obligations = verification conditions generated from /repo's current SSA for every contract and lemma tagged with this property and for every verified function those functions reach through calls - static, function literals, interface methods implemented by repository types - (functions_reached_through_calls; their property-labelled clauses count only for the labelled properties, their bounded stand-ins are not run here) (post, pre@call, loop invariants, frames, order, safety, lemma), excluding those matched by a listed known finding; discharged = answered unsat by at least one solver with no solver answering sat",
 	}
 	if slowest != nil {
 		cov["slowest"] = map[string]any{"name": slowest.O.Name, "s": round3(slowest.R.Time.Seconds()), "solver": slowest.R.Solver}
@@ -512,4 +525,13 @@ func boundedOrEmpty(b []any) []any {
 		return []any{}
 	}
 	return b
+}
+
+func reachedNames(m map[string]bool) []string {
+	out := []string{}
+	for k := range m {
+		out = append(out, short(k))
+	}
+	sort.Strings(out)
+	return out
 }
